@@ -66,19 +66,43 @@ class Setup:
                 used.update(t.refs())
                 self.pooled.append(t)
         # honest peer #1 is in the middle of a download: it announced two blocks the node does not have yet
-        parent = world.chain.blocks[head]
-        rb1 = world.mine(world.draft(head, [], parent.ts + 10, world.keys[0][1]))
-        self.future_blocks = [rb1]
+        # (a chain of 1-3 blocks; in half of the setups the first of them have already ARRIVED as bulk-download replies when
+        # the hostile phase starts: the node then holds blocks it has, by design, not validated in state yet)
+        self.future_blocks = []
+        self.tmp = tmp = world.fork()
+        fh = head
+        for _ in range(rng.choice([1, 2, 3])):
+            parent = tmp.chain.blocks[fh]
+            rb = tmp.mine(tmp.draft(fh, [], parent.ts + 10, tmp.keys[0][1]))
+            if tmp.accept(rb, bridge.rblock_to_real(rb)) is None:
+                break
+            self.future_blocks.append(rb)
+            fh = rb.id()
+        rb1 = self.future_blocks[0]
         ms = sn.wire.ms
+        sn.net.clock.t = max(sn.net.clock.t, self.future_blocks[-1].ts + 50)
         sn.net.do_step(sn.node)
         sn.settle()
         sent = simnet.Wire.parse(self.honest[1].take_received())[0]
         gb = [m for m in sent if m["msg"]["type"] == "get_blocks"]
         irt = gb[-1]["header"]["id"] if gb else 0
-        self.honest[1].push(sn.wire.frame(ms.InventoryMessage([ms.InventoryItem(ms.DATA_BLOCK, rb1.id())]), in_response_to=irt))
+        self.honest[1].push(sn.wire.frame(ms.InventoryMessage([ms.InventoryItem(ms.DATA_BLOCK, rb.id()) for rb in self.future_blocks]),
+                                          in_response_to=irt))
         sn.settle()
         out = simnet.Wire.parse(self.honest[1].take_received())[0]
         self.getdata = [m for m in out if m["msg"]["type"] == "get_data" and m["msg"]["hash"] == rb1.id()]
+        self.getdata_by_hash = {m["msg"]["hash"]: m["header"]["id"] for m in out if m["msg"]["type"] == "get_data"}
+        self.delivered_early = 0
+        if len(self.future_blocks) > 1 and rng.random() < 0.6 and all(rb.id() in self.getdata_by_hash for rb in self.future_blocks):
+            for rb in self.future_blocks[:rng.randint(1, len(self.future_blocks) - 1)]:
+                self.honest[1].push(sn.wire.block(bridge.rblock_to_real(rb), in_response_to=self.getdata_by_hash[rb.id()]))
+                sn.settle()
+                if rb.id() in sn.cm.coinstate.block_by_hash:
+                    self.delivered_early += 1
+            if self.delivered_early:
+                mon.c["setups_holding_unvalidated_bulk_blocks"] = mon.c.get("setups_holding_unvalidated_bulk_blocks", 0) + 1
+        self.baseline_cs = sn.cm.coinstate
+        self.baseline_buffer = list(sn.store.write_buffer)
         self.corpus = self.build_corpus()
 
     def build_corpus(self):
@@ -152,6 +176,8 @@ class Setup:
             # out of protocol order: perfectly valid NEW content, but sent before the greeting -> must change nothing
             world, sn = self.world, self.sn
             head = sn.cm.coinstate.current_chain_hash
+            if head not in world.chain.blocks:
+                world = self.tmp            # (the head is one of the bulk-download blocks delivered before the hostile phase)
             if rng.random() < 0.5:
                 used = {r for t in self.pooled for r in t.refs()}
                 t = world.make_rtx(head, rng, exclude=used, signer="ref")
@@ -246,6 +272,38 @@ class Setup:
         self.pooled += [bridge.real_to_rtx(t) for t in new]
         return True
 
+    def heal(self):
+        """back to the situation the setup started the hostile phase in"""
+        sn = self.sn
+        sn.store.write_buffer[:] = list(self.baseline_buffer)
+        if self.delivered_early:
+            sn.cm.set_coinstate(self.world.cs)                          # (what the node had validated itself)
+            sn.cm.set_coinstate(self.baseline_cs, validated=False)      # plus the bulk blocks it holds unvalidated
+        else:
+            sn.cm.set_coinstate(self.baseline_cs)
+
+    def contains_structurally_valid_block(self, data):
+        """does the stream carry a block that breaks no by-itself rule (reference's judgement)?  Such a block is not
+        'structurally invalid': if it breaks a chain rule while the node holds bulk-download blocks it has not validated
+        yet, the node's documented reaction is to fall back to its last validated state"""
+        class NoChain:
+            blocks = {}
+        try:
+            payloads, _r, _rest = ref.parse_frames(data)
+        except Exception:
+            return False
+        for p in payloads:
+            try:
+                hdr, body = ref.parse_msg_header(p)
+                if body[:2] != b"\x00\x04" or body[3:5] != b"\x00\x00":
+                    continue
+                rb = ref.dec_block(body[5:], strict=False)[0]
+                if not (ref.block_codes(NoChain, rb, self.sn.net.clock.t) - {"parent-unknown"}):
+                    return True
+            except Exception:
+                continue
+        return False
+
     def contains_bulk_block(self, data):
         try:
             payloads, _r, _rest = ref.parse_frames(data)
@@ -287,6 +345,7 @@ class Setup:
         mon, c, sn, rng = self.mon, self.mon.c, self.sn, self.rng
         hostile = None
         hostile_greeted = False
+        conn_bytes = b""
         signal.signal(signal.SIGALRM, _alarm)
         for n in range(nstreams):
             name, kind, data, greeted = self.hostile_stream()
@@ -298,6 +357,7 @@ class Setup:
                     hostile.close()
                     sn.settle()
                 hostile = sn.net.raw_connect(sn.node, src=("10.66.6.%d" % (n % 200 + 1), 46000 + n % 1000))
+                conn_bytes = b""            # everything sent on this connection after the greeting
                 if greeted:
                     simnet.greet(sn.net, sn.node, hostile, sn.wire, nonce=6660 + n)
                 hostile_greeted = greeted
@@ -312,6 +372,9 @@ class Setup:
                  "kind": kind, "base_frame": name, "pool": [t.enc().hex() for t in self.pooled]}
             frag = rng.random() < 0.5
             c["fragmented_streams"] += frag
+            conn_bytes += data
+            if conn_bytes != data:
+                w["stream_with_earlier_bytes_on_this_connection"] = conn_bytes.hex()
             hostile.push(data)
             if kind == "request-then-close":
                 hostile.close()
@@ -358,15 +421,24 @@ class Setup:
             after = self.fingerprint()
             c["fingerprints_compared"] += 1
             if after != before:
-                if self.contains_bulk_block(data):
+                if self.contains_bulk_block(conn_bytes):
                     # [domain] a block sent as a bulk-download reply is taken without in-state validation by design and
                     # stays "unvalidated" (a later rejection rolls it back): restore the baseline so that the following
                     # verdicts are not contaminated by it
                     c["out_of_domain_bulk_block"] += 1
-                    sn.store.write_buffer.clear()
-                    sn.cm.set_coinstate(self.world.cs)
+                    self.heal()
                     have = {t.hash() for t in sn.pool()}
                     for t in self.pooled:        # the unvalidated block may have evicted pooled transactions
+                        if t.id() not in have:
+                            sn.cm.add_transaction_to_pool(bridge.rtx_to_real(t))
+                elif greeted and self.delivered_early and self.contains_structurally_valid_block(conn_bytes):
+                    # [domain] not a structurally invalid block: a rule-breaking one, arriving while the node holds blocks it
+                    # took from a bulk download without validating them -- falling back to the last validated state is the
+                    # node's documented reaction to that (C09's subject, not malformed input)
+                    c["out_of_domain_rule_breaking_block_while_unvalidated"] = c.get("out_of_domain_rule_breaking_block_while_unvalidated", 0) + 1
+                    self.heal()
+                    have = {t.hash() for t in sn.pool()}
+                    for t in self.pooled:
                         if t.id() not in have:
                             sn.cm.add_transaction_to_pool(bridge.rtx_to_real(t))
                 elif greeted and self.only_valid_transactions_admitted(before, after):
@@ -376,8 +448,7 @@ class Setup:
                 elif kind == "valid-content-before-greeting":
                     what = [n2 for n2, (x, y) in zip(("chain state", "pool", "store tables", "write buffer", "state"), zip(before, after)) if x != y]
                     mon.v("content-accepted-before-greeting", "a %s sent before the greeting changed the node's %s" % (name, what), w)
-                    sn.store.write_buffer.clear()
-                    sn.cm.set_coinstate(self.world.cs)
+                    self.heal()
                     sn.cm.transaction_pool[:] = [t for t in sn.cm.transaction_pool if t.hash() in {x.id() for x in self.pooled}]
                 else:
                     what = [n2 for n2, (x, y) in zip(("chain state", "pool", "store tables", "write buffer", "state"), zip(before, after)) if x != y]
@@ -397,15 +468,17 @@ class Setup:
             return          # the node cannot make progress any more: nothing further can be asked of it
         # the interrupted download of honest peer #1 completes afterwards
         if self.getdata and not self.honest[1].peer.closed:
-            rb1 = self.future_blocks[0]
-            sn.net.clock.t = max(sn.net.clock.t, rb1.ts + 50)
-            self.honest[1].push(sn.wire.block(bridge.rblock_to_real(rb1), in_response_to=self.getdata[0]["header"]["id"]))
-            sn.settle()
-            if rb1.id() in sn.cm.coinstate.block_by_hash:
+            for rb in self.future_blocks:
+                if rb.id() in sn.cm.coinstate.block_by_hash or rb.id() not in self.getdata_by_hash:
+                    continue
+                self.honest[1].push(sn.wire.block(bridge.rblock_to_real(rb), in_response_to=self.getdata_by_hash[rb.id()]))
+                sn.settle()
+            if all(rb.id() in sn.cm.coinstate.block_by_hash for rb in self.future_blocks):
                 c["downloads_completed_after_hostile_phase"] += 1
             else:
-                mon.v("honest-download-broken-by-hostile-input", "block requested from an honest peer before the hostile phase "
-                      "is not accepted when it arrives afterwards", {"kind": "download"})
+                mon.v("honest-download-broken-by-hostile-input", "blocks requested from an honest peer before the hostile phase "
+                      "(%d of %d delivered before it) are not all accepted when the rest arrives afterwards" % (
+                          self.delivered_early, len(self.future_blocks)), {"kind": "download"})
         sn.close()
 
 
@@ -637,6 +710,8 @@ def replay(mon, w):
     if w.get("greeted", True):
         simnet.greet(sn.net, sn.node, hostile, sn.wire, nonce=6660)
     before = st.fingerprint()
+    stream_hex = w.get("stream_with_earlier_bytes_on_this_connection") or w["stream"]
+    w = dict(w, stream=stream_hex)
     hostile.push(bytes.fromhex(w["stream"]))
     sn.settle()
     sn.net.do_step(sn.node)
@@ -677,6 +752,7 @@ def finalize(m, tier):
               ("frames_well_formed_but_invalid", c.get("frames_well_formed_but_invalid", 0), 200),
               ("streams_before_greeting", c.get("streams_before_greeting", 0), 300),
               ("noninterference_cases", c.get("noninterference_cases", 0), 200),
+              ("setups_holding_unvalidated_bulk_blocks", c.get("setups_holding_unvalidated_bulk_blocks", 0), 10),
               ("sends_failed_on_a_closed_connection", c.get("sends_failed_on_a_closed_connection", 0), 100),
               ("reads_failed_on_a_reset_connection", c.get("reads_failed_on_a_reset_connection", 0), 100),
               ("noninterference_baseline_downloads_complete", c.get("noninterference_baseline_downloads_complete", 0), 100),
